@@ -11,9 +11,7 @@ use linear_hashtbl::raw::RawTable;
 #[cfg(not(oxidd_verif))]
 use parking_lot::{Mutex, MutexGuard};
 #[cfg(oxidd_verif)]
-use parking_lot::MutexGuard;
-#[cfg(oxidd_verif)]
-use crate::verif_sync::Mutex;
+use crate::verif_sync::{Mutex, MutexGuard};
 use rustc_hash::FxHasher;
 
 use oxidd_core::Tag;
